@@ -39,6 +39,7 @@ def run(rep):
         dfs=("(bad_c20 {m})", "true"), dfs_when=lambda r: r["drain"] != "true",
         search="c20_search", search_what="client 0 makes a method panic, clients 1 and 2 then call every method (Runtime/Explore.v faulted); anomalies: 1 completed without execution and without panic, 2 fabricated value, 3 caller still inside a call at the end; dfs monitor: a call completed silently, or a caller inside a call has no enabled step although the actor is dead",
         extra_funs=[("drain", "r_drain (elab {i})")], per_model_check=per_model)
+    interact_loud_part(rep, random.Random(rep.seed + 5))
     ndrain = sum(1 for r in res if r["drain"] == "true")
     rep.notes.append("C20_no_hang instantiated for %d instances with a draining receiver (std, tokio) or a drain guard in play (async_std, smol); %d instances without" % (ndrain, len(res) - ndrain))
     runs = []
@@ -55,6 +56,45 @@ def run(rep):
     rt_common.model_vs_probe(rep, PID, 'fault', [(lib, ch, {'waiting': 2, 'later': 4}) for lib in gen_impl.LIBS for ch in (0, 1, 2)])
     if seen and known_async:
         rep.known_finding("async-channel-buffered-reply: %d in-flight value-returning calls on async_std / smol block forever after the actor died (e.g. %s); proved refuted in Coq: C20_no_hang_refuted_without_drain" % (len(seen), seen[0]))
+
+
+def interact_loud_part(rep, rng):
+    """`interact` methods that hand a channel end back to the caller are ordinary sends for C20: on a dead actor the call must panic, not return an
+    end nobody holds the other side of.  Static oracle on the translated real expansions: every handle method's send / wait says `closed` loudly."""
+    import C14, inst
+    cases = []
+    for lib in gen_impl.LIBS:
+        for ch in (None, 2):
+            for kinds in (("E",), ("O", "E"), ("G", "E"), ("E", "G", "O")):
+                c = C14.mk_case(rng, kinds, lib, irregular=False, interact=True, ret=False)
+                c["channel"] = ch
+                cases.append(c)
+    cfgs = [{"kind": "actor", "lib": c["lib"], "attr": gen_impl.actor_attr(c["lib"], c["channel"], debut=True, interact=True), "item": C14.item_of([c]),
+             "label": "interact lib=%s channel=%s kinds=%s" % (c["lib"], c["channel"], c["kinds"]), "case": c} for c in cases]
+    cfgs = inst.expand_configs(cfgs, tag="c20i")
+    terms, owners = [], []
+    for c in cfgs:
+        rep.evaluations += 1
+        ms = inst.coq_models(c) if c["class"] == "TOKENS" else []
+        if len(ms) != 1 or ms[0] is None:
+            rep.oblige(False)
+            rep.violation("shape_" + c["label"], {"what": "interact method not expanded / recognised", "class": c["class"], "attr": c["attr"], "item": c["item"], "output": c["text"][:1200]}, found=False)
+            continue
+        terms.append(ms[0]); owners.append(c)
+    if not terms:
+        return
+    res, _ = inst.coq_eval(PID + "i", terms, [("loud", "InvDefs2.loud (elab {i}) && forallb (fun lm => body_says_closed (lm_body lm)) (m_methods {i})"),
+                                              ("quiet", "map lm_name (filter (fun lm => negb (body_says_closed (lm_body lm))) (m_methods {i}))")],
+                           extra_imports="From IT Require Import Runtime.InvDefs2 Runtime.Explore Runtime.Combined.")
+    for c, r, t in zip(owners, res, terms):
+        rep.nontrivial.add(("interact-loud", c["lib"], c["case"]["channel"], c["case"]["kinds"]))
+        if rep.oblige(r["loud"] == "true"):
+            continue
+        unread = "(BUnknown" in t
+        rep.violation("interact_" + c["label"], {
+            "what": "handle method(s) %s of an `interact` actor do not report a closed channel: a call on a dead actor returns normally (holding a channel end whose other side was "
+                    "dropped with the unsent message) instead of panicking" % r["quiet"],
+            "attr": c["attr"], "item": c["item"], "unread_bodies": unread, "theorem": "premise `loud` / `body_says_closed` of C20_loud at the translated real expansion"}, found=not unread)
 
 
 def replay(rep, path):
